@@ -254,6 +254,21 @@ func (e *Engine) atReturn(st *State, fr *Frame, res Val, x *ssa.Return) {
 			continue
 		}
 		switch cl.Kind {
+		case "atreturn":
+			// like ensures, but evaluated at the return statement with the function's local variables in scope
+			if vc.caseName != cl.Case || x == nil {
+				continue
+			}
+			fctx := e.frameCtx(st, fr, x.Block())
+			for k, v := range env {
+				if _, have := fctx.env[k]; !have || strings.HasPrefix(k, "result") {
+					fctx.env[k] = v
+				}
+			}
+			g := e.evalBool(fctx, cl.Expr)
+			e.curClause = cl
+			e.oblige(st.cloneForOblige(), "ensures", fmt.Sprintf("atreturn#%d", cl.Ord), g, pos, cl.Props, cl.Text)
+			e.curClause = nil
 		case "ensures":
 			if vc.caseName != "" && cl.Case == "" {
 				continue // unconditional clauses are checked in the unconditional run
